@@ -562,7 +562,9 @@ def check_rk4(out, o, h, T, mu, deep):
     ref = kepler_ref(o["x0"], T, mu)
     es = []
     last = None
-    for hh in ((h, h / 2, h / 4) if deep else (h, h / 2)):
+    # the order is read off the finest pair; for coarse steps in low orbits (n_p h > 0.08) the pair (h, h/2) is still
+    # pre-asymptotic (observed 4.66 at n_p h = 0.14), so a third run at h/4 is added there
+    for hh in ((h, h / 2, h / 4) if (deep or o["n_p"] * h > 0.08) else (h, h / 2)):
         r = vec(make(o["x0"], hh, "rk4").propagate(timedelta(seconds=T)))
         if not _finite(out, "rk4", "propagate", case_inp(o, hh, T), r):
             return
